@@ -211,3 +211,15 @@ func HarnessOverlay(repo, harnessDir string) (map[string]string, error) {
 	}
 	return ov, nil
 }
+
+// globalByName returns the cell of a package-level variable such as "io.EOF".
+func (p *Program) globalByName(name string) *Object {
+	for _, pk := range p.Prog.AllPackages() {
+		for _, m := range pk.Members {
+			if g, ok := m.(*ssa.Global); ok && g.String() == name {
+				return p.global(g)
+			}
+		}
+	}
+	return nil
+}
